@@ -6,14 +6,14 @@ from props.c03 import py_select, history
 class P(Prop):
     ID = "C12"
     MODULE = "C12"
-    THEOREMS = ["C12_runmax", "C12_sorted", "C12_empty", "C12_example"]
+    THEOREMS = ["C12_runmax", "C12_sorted", "C12_empty", "C12_online", "C12_online_firstn", "C12_example"]
     KERNELS = ["Poly0::evaluate", "Poly3::evaluate", "Segment<Poly0>::evaluate", "Segment<Poly3>::evaluate"]
     RULE = ("evaluate_v on sequences of 0..60 (thorough ..1000) non-NaN arguments, sorted and unsorted, repeats, exact ends, "
             "+-inf, over 1..12 segments; the evaluate_v_pt op also runs Piecewise::evaluate on each argument and the oracle demands "
             "bit equality wherever the argument is >= all earlier ones; a signed-zero class (runs of -0.0/+0.0 arguments, pieces with -0.0 coefficients); plus a laziness probe (input iterator counting pulls). non-trivial = >= 2 segments "
             "selected; distinct by full input")
     TRUSTED = ["skeleton PwModel.ev_v tied to Piecewise::evaluate_v by bit-exact correspondence",
-               "laziness of the Rust iterator is observed by a test (pull counter), not modelled"]
+               "laziness: value k depends on the first k+1 arguments only is a theorem (C12_online); that the Rust adaptor pulls no input early is observed by a test (pull counter)"]
     ASSUMPTIONS = ["IEEE-754 comparisons"]
 
     def cases(self, rng, tier):
@@ -55,11 +55,39 @@ class P(Prop):
             sg = [[C.bits(e), C.bits(float(i + 1))] for i, e in enumerate(es)]
             xs = [C.bits(v) for v in (float("-inf"), float("-inf"), MIN_, -7.0, 0.0, MAX_, float("inf"))]
             out.append(dict(op="evaluate_v_pt", ty="Poly0", segs=sg, xs=xs, meta={"class": "extreme_ends"}))
+        # long DENSE runs (70..300 sorted arguments that stay in the current piece or step to the next one) followed by jumps over
+        # several breakpoints and beyond the last end: any adaptive mode switched on by the shape of the input so far shows here
+        for _ in range(8 if tier == "quick" else 60):
+            k = rng.randint(4, 12)
+            es, sg = G.tag_segs(rng, k, "ints")
+            lo = es[0] - 1.0
+            xs, cur = [], lo
+            dense = rng.randint(70, 300)
+            upto = rng.choice([es[0] - 0.5, es[1] if k > 1 else es[0], es[min(k - 1, 2)]])
+            for j in range(dense):
+                cur = min(cur + (upto - lo) / dense * rng.choice([0.0, 1.0, 2.0]), upto)
+                xs.append(C.bits(cur))
+            far = [e + rng.choice([0.0, 0.25, -0.25]) for e in es if e > cur + 1.5] + [es[-1] + 1.0, es[-1] + 100.0]
+            xs += [C.bits(v) for v in sorted(rng.choice(far) for _ in range(rng.randint(1, 5)))]
+            xs = sorted(xs, key=lambda b: C.fl(b))
+            out.append(dict(op="evaluate_v_pt", ty="Poly0", segs=sg, xs=xs, meta={"class": "dense_then_jump"}))
+        # UNSORTED arguments over non-constant pieces: the piece is chosen by the running maximum but evaluated AT the argument (the
+        # harness selects that piece itself, through the public fields, and evaluates it at the argument)
+        for _ in range(24 if tier == "quick" else 300):
+            ty = rng.choice(["Poly1", "Poly3", "Poly2"])
+            k = rng.randint(1, 8)
+            es, sg = G.segs(rng, ty, k)
+            xs = history(rng, es, rng.randint(2, 30))
+            if rng.random() < 0.3:
+                # steps back below the start of the current piece, and small arguments after the maximum passed the last end
+                hi = max(e for e in es if e == e)
+                xs = xs[:3] + [C.bits(hi + 1.0)] + [C.bits(rng.uniform(min(es) - 2, hi)) for _ in range(6)]
+            out.append(dict(op="evaluate_v_rm", ty=ty, segs=sg, xs=xs, meta={"class": "unsorted_nonconstant/" + ty}))
         out.append(dict(op="evaluate_v", ty="Poly0", segs=[], xs=[0], meta={"class": "empty"}))
         return out
 
     def coq_term(self, case, h):
-        if case["op"] == "evaluate_v_lazy":
+        if case["op"] in ("evaluate_v_lazy", "evaluate_v_rm"):
             return None
         t = "run_evaluate_v [] [] %s %s %s" % (C.kname("%s::evaluate" % case["ty"]),
                                                C.zlistlist(case["segs"]), C.zlist(case["xs"]))
@@ -82,6 +110,18 @@ class P(Prop):
                 if r[2 + 2 * k] != k + 1:
                     return "after %d outputs %d inputs had been pulled (not lazy / not in order)" % (k + 1, r[2 + 2 * k])
             answers = r[1::2]
+        elif case["op"] == "evaluate_v_rm":
+            r = h["r"]
+            if len(r) != 2 * len(case["xs"]):
+                return "evaluate_v yielded %d values for %d arguments" % (len(r) // 2, len(case["xs"]))
+            m = None
+            for k, xb in enumerate(case["xs"]):
+                x = C.fl(xb)
+                m = x if m is None or x > m else m
+                if C.canon(r[2 * k]) != C.canon(r[2 * k + 1]):
+                    return ("argument %d x=%r (running maximum %r): evaluate_v gave %r (0x%016x); the piece selected by the running "
+                            "maximum, evaluated at the argument, gives %r (0x%016x)" % (k, x, m, C.fl(r[2 * k]), r[2 * k], C.fl(r[2 * k + 1]), r[2 * k + 1]))
+            return None
         elif case["op"] == "evaluate_v_pt":
             n = len(case["xs"])
             if len(h["r"]) != 2 * n:
@@ -114,7 +154,7 @@ class P(Prop):
     def nontrivial_key(self, case, h):
         if h["r"] == "PANIC" or len(case["segs"]) < 2:
             return None
-        a = h["r"][1::2] if case["op"] == "evaluate_v_lazy" else h["r"][:len(case["xs"])]
+        a = h["r"][1::2] if case["op"] == "evaluate_v_lazy" else (h["r"][0::2] if case["op"] == "evaluate_v_rm" else h["r"][:len(case["xs"])])
         if len(set(a)) < 2:
             return None
         return super().nontrivial_key(case, h)
